@@ -201,9 +201,9 @@ def finish(prop, tier, seed, results, known, wall, verbose):
                                  % (o['name'], o['status'], o['detail']))
             elif o['name'] in base_p:
                 # an obligation that is discharged on the pinned tree (contracts/baseline_obligations.json) has a different
-                # verification condition now and is no longer discharged: reported as a violation with the solver's reason
-                # (the guidance's minimum criterion); the replay decides whether a failing input is known
-                o = dict(o)
+                # verification condition now and the solver no longer decides it (no counterexample either): a violation if a
+                # native demonstration finds a failing input for it, undecided otherwise (a timeout is never a violation)
+                o = dict(o, needs_native=True)
                 o['detail'] = 'regressed: discharged on the pinned tree, now %s (%s)' % (o['status'], o['detail'])
                 viol.append(o)
             else:
@@ -301,6 +301,11 @@ def finish(prop, tier, seed, results, known, wall, verbose):
                 continue
             seen.add(o['name'])
             path, reproduced = replay.write_replay(prop, o)
+            if o.get('needs_native') and not reproduced:
+                # discharged on the pinned tree, not discharged now, but the solver gave no counterexample (timeout / unknown) and
+                # no failing input was found natively: a solver limit is not a violation
+                undecided.append('%s: %s; no failing input found natively; replay %s' % (o['name'], o['detail'], path))
+                continue
             if o.get('path_clause') and not reproduced:
                 # a clause that pins the algorithm (not the result) no longer holds and no failing input was found: the code
                 # computes its result differently now and the proof does not apply to it -- undecided, not a violation
